@@ -51,6 +51,54 @@ func init() {
 			return pending{}
 		},
 		"(*sync.Pool).Put": noop,
+		"(*strings.Builder).Write": func(e *Engine, st *State, args []Value) Value {
+			n := sbAppend(e, st, args[0].(PtrV), e.sliceElems(st, args[1].(SliceV)))
+			return TupleV{[]Value{e.ts.BV(uint64(n), 64), IfaceV{}}}
+		},
+		"(*strings.Builder).WriteString": func(e *Engine, st *State, args []Value) Value {
+			s := args[1].(StringV)
+			if s.opaque {
+				panic(unsupported("strings.Builder.WriteString of unmodelled string"))
+			}
+			el := make([]Value, len(s.b))
+			for i, b := range s.b {
+				el[i] = b
+			}
+			n := sbAppend(e, st, args[0].(PtrV), el)
+			return TupleV{[]Value{e.ts.BV(uint64(n), 64), IfaceV{}}}
+		},
+		"(*strings.Builder).WriteByte": func(e *Engine, st *State, args []Value) Value {
+			sbAppend(e, st, args[0].(PtrV), []Value{args[1]})
+			return IfaceV{}
+		},
+		"(*strings.Builder).WriteRune": func(e *Engine, st *State, args []Value) Value {
+			r := args[1].(*Term)
+			c, ok := st.known(r)
+			if !ok || c >= 0x80 {
+				panic(unsupported("strings.Builder.WriteRune of symbolic or non-ASCII rune"))
+			}
+			sbAppend(e, st, args[0].(PtrV), []Value{e.ts.BV(c, 8)})
+			return TupleV{[]Value{e.ts.BV(1, 64), IfaceV{}}}
+		},
+		"(*strings.Builder).String": func(e *Engine, st *State, args []Value) Value {
+			b := e.load(st, args[0].(PtrV)).(StructV).f[1].(SliceV)
+			el := e.sliceElems(st, b)
+			out := make([]*Term, len(el))
+			for i, x := range el {
+				out[i] = x.(*Term)
+			}
+			return StringV{b: out}
+		},
+		"(*strings.Builder).Len": func(e *Engine, st *State, args []Value) Value {
+			b := e.load(st, args[0].(PtrV)).(StructV).f[1].(SliceV)
+			return e.ts.BV(uint64(b.len), 64)
+		},
+		"(*strings.Builder).Grow":  noop,
+		"(*strings.Builder).Reset": func(e *Engine, st *State, args []Value) Value {
+			p := args[0].(PtrV)
+			e.store(st, PtrV{obj: p.obj, path: appendPath(p.path, PathEl{idx: 1})}, SliceV{})
+			return nil
+		},
 		"(*encoding/base64.Encoding).EncodeToString": modelOpaqueStr,
 		"strconv.Itoa":                               modelOpaqueStr,
 		"time.Date": func(e *Engine, st *State, args []Value) Value {
@@ -105,6 +153,20 @@ func init() {
 	for k, v := range more {
 		models[k] = v
 	}
+}
+
+func sbAppend(e *Engine, st *State, p PtrV, add []Value) int {
+	if p.obj == 0 {
+		panic(goPanic{site: "nil pointer dereference (strings.Builder)"})
+	}
+	e.modelsUsed["strings.Builder = byte buffer (its unsafe string conversion is not executed)"] = true
+	bp := PtrV{obj: p.obj, path: appendPath(p.path, PathEl{idx: 1})}
+	b := e.load(st, bp).(SliceV)
+	if len(add) > 0 {
+		nb := e.appendElems(st, b, add, types.Typ[types.Uint8])
+		e.store(st, bp, nb)
+	}
+	return len(add)
 }
 
 // findModelGeneric handles instantiated generic functions by name prefix.
